@@ -525,6 +525,7 @@ func run(t *T) {
 		checkFile(t, r, f, opts, optClass)
 	}
 	runForeignTraces(t)
+	runForeignTracesFromText(t)
 }
 
 // runForeignTraces: files whose entries carry trace numbers that do not start with their batch's ODFI (numbers
